@@ -90,7 +90,7 @@ func genConc(g *sim.Stream, tier string) *concProg {
 		p.M = append(p.M, m)
 		p.Total += m
 		p.SendForm = append(p.SendForm, g.Intn(2))
-		p.PSpawn = append(p.PSpawn, g.Intn(9))
+		p.PSpawn = append(p.PSpawn, g.Intn(11))
 	}
 	for i := 0; i < p.R; i++ {
 		rf := g.Intn(5)
@@ -221,6 +221,13 @@ func genConc(g *sim.Stream, tier string) *concProg {
 	w("  myid := lid; myn := ln")
 	w("  go func() { if lform == 0 { producer0(myid, myn) } else { producer1(myid, myn) }; r := myid + (a9 - a9); pdone <- r }()")
 	w("}")
+	// a launcher whose goroutine closes over variables of an `if` block; a later
+	// block of the same function declares other variables before returning
+	w("func launchb(lid, ln, lform) {")
+	w("  if lid >= 0 { bid := lid; bn := ln; go func() { if lform == 0 { producer0(bid, bn) } else { producer1(bid, bn) }; pdone <- bid }() }")
+	w("  if lid >= 0 { other := \"unrelated\"; other2 := 99 + lid; if other2 < 0 { error(other) } }")
+	w("  for q := 0; q < 2; q++ { third := [q, lid]; if len(third) == 0 { error(\"x\") } }")
+	w("}")
 	w("pts := []")
 	w("bts := []")
 	w("cts := []")
@@ -284,6 +291,11 @@ func genConc(g *sim.Stream, tier string) *concProg {
 				} else {
 					w("go vals%d.each(%s)", i, cb)
 				}
+			case 9:
+				w("launchb(pid, n, %d)", p.SendForm[i])
+			case 10:
+				// spawned code with two deferred closures: both run, in reverse order
+				w("pts.append([pid, spawn(func(id, n) { defer func() { pdone <- id }(); defer func() { ptag(id, id*11+3) }(); return %s(id, n) }, pid, n)])", f)
 			case 6:
 				// a starter thread that spawns the producer and returns at once:
 				// the producer outlives the thread that started it
@@ -310,7 +322,7 @@ func genConc(g *sim.Stream, tier string) *concProg {
 	w("for _, bt := range bts { bt.wait() }")
 	ngo := 0
 	for _, f := range p.PSpawn {
-		if f == 2 || f == 5 || f == 7 || f == 8 {
+		if f == 2 || f == 5 || f == 7 || f == 8 || f == 9 || f == 10 {
 			ngo++
 		}
 	}
@@ -757,7 +769,7 @@ func runC10(rc *fw.RunCtx) {
 	}
 	wantTagged := 0
 	for _, f := range prog.PSpawn {
-		if f == 3 || f == 4 {
+		if f == 3 || f == 4 || f == 10 { // (form 10: the tag is reported by a deferred closure)
 			wantTagged++
 		}
 	}
@@ -798,7 +810,7 @@ func runC10(rc *fw.RunCtx) {
 	}
 	// 5. wait() values
 	for i := 0; i < prog.S; i++ {
-		if prog.PSpawn[i] != 2 && prog.PSpawn[i] != 5 && prog.PSpawn[i] != 7 && prog.PSpawn[i] != 8 {
+		if prog.PSpawn[i] != 2 && prog.PSpawn[i] != 5 && prog.PSpawn[i] != 7 && prog.PSpawn[i] != 8 && prog.PSpawn[i] != 9 {
 			if v, ok := waitedP[i]; !ok || v != int64(i*7+prog.M[i]) {
 				rc.Violate("wait/value", "producer %d wait() gave %v (present=%v), expected %d", i, v, ok, i*7+prog.M[i])
 				return
